@@ -79,6 +79,33 @@ pub fn replay(args: &Args) {
                     let vi: Vec<i32> = enc_vec(&s);
                     run!("Vec<i32>", vi);
                 }
+                // ---- the same series in other units of measurement (OrderStats.tla QuantileHomogeneous) ----
+                if let Some(d) = v.get("deg").and_then(|d| d["quantile"].as_i64()) {
+                    let ma = max_abs(&s);
+                    macro_rules! urun {
+                        ($T:ty, $u:expr) => {{
+                            if <$T as InElem>::fits(ma, $u) {
+                                let f = ($u as f64).powi(d as i32);
+                                let un = Unit { factor: f, floor: f * (ma.max(1) as f64).powi(d as i32) };
+                                let x: Vec<$T> = enc_vec_unit(&s, $u);
+                                let cell = format!("Vec<{}>@unit={:e}", <$T as InElem>::NAME, $u);
+                                match catch(|| x.vquantile(qf, qmethod(m))) {
+                                    Ok(Ok(r)) => { rep.check_unit("vquantile", &key, &cell, &e, o_f(r), un, v); },
+                                    Ok(Err(err)) => rep.fail("vquantile", &key, &cell, &format!("error for q in [0,1]: {err}"), v),
+                                    Err(p) => rep.fail("vquantile", &key, &cell, &format!("panicked: {p}"), v),
+                                }
+                            }
+                        }};
+                    }
+                    urun!(f64, 123467.8_f64);
+                    urun!(f64, 1.3e-4_f64);
+                    urun!(Option<f64>, 1e300_f64);
+                    urun!(Option<i32>, 400_000_000.0_f64);
+                    if nullfree {
+                        urun!(i32, 400_000_000.0_f64);
+                        urun!(i64, 1_500_000_000_000_000_000.0_f64);
+                    }
+                }
                 if qn * 2 == qd && m == "linear" {
                     let key = format!("vmedian|{skey}");
                     match catch(|| vf.vmedian()) {
